@@ -26,7 +26,7 @@ FILES = (
     "actix-multipart/src/multipart.rs", "actix-multipart/src/field.rs", "actix-multipart/src/payload.rs",
     "actix-files/src/named.rs", "actix-files/src/range.rs", "actix-files/src/chunked.rs",
     "actix-router/src/path.rs", "actix-router/src/quoter.rs", "actix-router/src/url.rs",
-    "actix-web/src/http/header/content_disposition.rs", "actix-web/src/http/header/range.rs", "actix-web/src/info.rs", "actix-web/src/types/query.rs",
+    "actix-web/src/http/header/content_disposition.rs", "actix-web/src/http/header/range.rs", "actix-web/src/http/header/entity.rs", "actix-web/src/http/header/if_range.rs", "actix-web/src/http/header/content_range.rs", "actix-web/src/info.rs", "actix-web/src/types/query.rs",
     "actix-http/src/header/utils.rs", "actix-http/src/header/shared/quality.rs", "actix-http/src/header/shared/quality_item.rs",
     "actix-http/src/header/shared/extended.rs", "actix-http/src/header/shared/http_date.rs", "actix-http/src/header/shared/charset.rs",
 )
@@ -228,7 +228,7 @@ def run(ck, prog, tier, load):
         if not b.file.endswith(FILES) or "::tests::" in b.npath or "::test::" in b.npath or b.dk in ("Const", "AssocConst", "Static"):
             continue
         fn = "::".join(b.npath.split("::")[-2:])
-        for bb, t in b.calls(r"Index<I> for \[T\]>::index$|IndexMut<I> for \[T\]>::index_mut$|core::slice::split_at$|<impl \[T\]>::split_at$|BytesMut::split_to$|Bytes::split_to$"):
+        for bb, t in b.calls(r"Index<I> for \[T\]>::index$|IndexMut<I> for \[T\]>::index_mut$|Index<I> for str>::index$|core::slice::split_at$|<impl \[T\]>::split_at$|BytesMut::split_to$|Bytes::split_to$"):
             if is_noise(b, bb) or len(t["args"]) < 2:
                 continue
             recv = core_of(b.op_expr(t["args"][0]))
@@ -346,6 +346,9 @@ def run(ck, prog, tier, load):
         # the reserve is taken when len > remaining
         ok = bool(rs) and all(guarded_by(c, r_, cmp_pred("Le", lambda e: True, lambda e: any(ctr_of(p) in REM for x in walk(e) if x[0] == "place" for p in x[2] if ctr_of(p) is not None), False))[0] for r_ in rs)
         ck.ob("C19-b.reserve-when-short", "encode_headers", ok, c, rs[0] if rs else None, "capacity is reserved exactly on the edge len > remaining")
+    # client side: a flag/slot combination that makes the payload codec unwrap None (shared with C17-d)
+    from .c17 import stream_flag_has_payload
+    stream_flag_has_payload(ck, prog, "C19-d")
 
 
 def core_of(e):
@@ -387,6 +390,13 @@ def bound_needed(idx):
         nm = (idx[2] or "").split("::")[-1]
         ops = idx[3]
         if nm == "Range" and len(ops) == 2:
+            # `x[a..x.len() - c]` needs a <= len - c, i.e. a + c <= len (and c <= len, which it implies)
+            end = strip(ops[1])
+            start = strip(ops[0])
+            if end[0] == "place" and end[1][0] == "bin" and end[1][1] in ("Sub", "SubWithOverflow") and start[0] == "const" and start[2] is not None:
+                c_ = strip(end[1][3])
+                if c_[0] == "const" and c_[2] is not None and e_calls(end[1][2], r"::len$"):
+                    return None, start[2] + c_[2]
             return off(ops[1])
         if nm == "RangeTo" and len(ops) == 1:
             return off(ops[0])
